@@ -44,6 +44,14 @@ func c17Bucket(r *verifrt.Rand) string {
 func c17Record(r *verifrt.Rand) (ChartConfig, []string) {
 	var c ChartConfig
 	var buckets []string
+	if r.Intn(12) == 0 {
+		// a record made of issue lines only (every field is optional, and issue
+		// is the one that repeats)
+		for k, n := 0, 1+r.Intn(3); k < n; k++ {
+			c.Issue = append(c.Issue, c17Value(r))
+		}
+		return c, nil
+	}
 	if r.Intn(8) != 0 {
 		c.Title = c17Value(r)
 	}
